@@ -68,8 +68,8 @@ fn oracle_path() -> PathBuf {
 fn parent(args: &Args) -> i32 {
     let mut report = new_report(args);
     let tier = args.tier;
-    let n_hist = args.get_u64("histories", tier.pick(2, 40));
-    let procs = args.get_u64("procs", tier.pick(2, 10)).min(n_hist).max(1);
+    let n_hist = args.get_u64("histories", tier.pick(6, 40));
+    let procs = args.get_u64("procs", tier.pick(6, 8)).min(n_hist).max(1);
     let scratch = Scratch::new("vecon");
     let exe = std::env::current_exe().expect("current exe");
     let watchdog = Duration::from_secs(args.get_u64("watchdog_s", tier.pick(400, 2400)));
@@ -87,7 +87,7 @@ fn parent(args: &Args) -> i32 {
             .arg(format!("histories={n_hist}"))
             .arg(format!("out={}", out.display()))
             .arg(format!("work={}", scratch.path.display()));
-        for k in ["blocks", "only", "keep", "budget_s"] {
+        for k in ["blocks", "only", "keep", "budget_s", "cache_mb"] {
             if let Some(v) = args.get_str(k) {
                 cmd.arg(format!("{k}={v}"));
             }
@@ -162,7 +162,7 @@ fn parent(args: &Args) -> i32 {
 
 fn requirements(r: &mut Report, tier: Tier) {
     let q = |a: u64, b: u64| tier.pick(a, b);
-    r.require("histories_judged", q(2, 30));
+    r.require("histories_judged", q(3, 30));
     r.require("blocks_judged", q(1_000, 30_000));
     r.require("checked.cellbase.amount", q(800, 25_000));
     r.require("checked.dao.recurrence", q(1_000, 30_000));
@@ -181,6 +181,8 @@ fn requirements(r: &mut Report, tier: Tier) {
     r.require("dao_phase1_committed", q(2, 40));
     r.require("dao_phase2_committed", q(1, 15));
     r.require("dao_phase2_asked_max", q(1, 5));
+    r.require("cellbase_insufficient_reward", q(10, 200));
+    r.require("cellbase_paid_reward", q(800, 25_000));
     r.require("reorgs", q(10, 500));
     r.require("chains_judged", q(10, 500));
     // commits at the offsets of both windows
@@ -244,7 +246,13 @@ fn run_history(args: &Args, hi: u64, work: &Path, report: &mut Report) {
     let mut rng = Rng::new(args.seed).fork(0xEC06_0000 + hi);
     let plan = hgen::plan(&mut rng, hi, args.tier, args.get_str("blocks").and_then(|s| s.parse().ok()));
     let budget = Duration::from_secs(args.get_u64("budget_s", args.tier.pick(100, 420)));
-    let gi = consensus::build(&plan.params);
+    let mut gi = consensus::build(&plan.params);
+    let genesis_secondary = gi.consensus.secondary_epoch_reward().as_u64();
+    if let Some(x) = plan.low_secondary {
+        // consensus parameter in force for every block after genesis (the genesis dao field was
+        // built with the spec's value, which the params record carries separately)
+        gi.consensus.secondary_epoch_reward = ckb_types::core::Capacity::shannons(x);
+    }
     let mut tg = TreeGen::new(&gi, plan.tree.clone(), rng.next_u64());
     let mut wl = hgen::Workload::new(&plan, &mut rng);
     let path = work.join(format!("history{hi}.jsonl"));
@@ -253,10 +261,10 @@ fn run_history(args: &Args, hi: u64, work: &Path, report: &mut Report) {
         serde_json::to_writer(&mut *f, v).unwrap();
         f.write_all(b"\n").unwrap();
     };
-    wr(&mut f, &rec::params_record(&gi, &plan, args.seed));
+    wr(&mut f, &rec::params_record(&gi, &plan, args.seed, genesis_secondary));
     let genesis = tg.rc.genesis;
     wr(&mut f, &rec::block_record(&tg, &wl, &genesis).record);
-    let mut cache = hgen::CacheGuard::new(args.get_u64("cache_mb", 1500) << 20);
+    let mut cache = hgen::CacheGuard::new(args.get_u64("cache_mb", 400) << 20);
     let mut made = 0usize;
     let mut reorgs = 0u64;
     let mut chains = 0u64;
@@ -270,7 +278,8 @@ fn run_history(args: &Args, hi: u64, work: &Path, report: &mut Report) {
         let tip = tg.tip();
         let tip_n = tg.rc.get(&tip).number;
         let parent: H = if tip_n > 1 && rng.chance(plan.fork_pm, 1000) {
-            let d = 1 + rng.below(plan.max_fork_depth.min(tip_n - 1));
+            // mostly siblings / short forks (they become uncles), sometimes deeper reorgs
+            let d = if rng.chance(550, 1000) { 1 } else { 1 + rng.below(plan.max_fork_depth.min(tip_n - 1)) };
             // the chain ending at `tip` is abandoned here: it was the main chain of B until now
             wr(&mut f, &json!({"t": "judge", "tip": vbase::hex(&tip), "number": tip_n, "reason": "before_reorg"}));
             reorgs += 1;
